@@ -7,6 +7,7 @@
 // Error measures are the author's (develop/GeodTest.cpp): ground distance for positions and
 // lengths, azimuth error x |m12| for azimuths obtained from an inverse problem, azimuth error
 // x a for azimuths obtained from a direct problem, |dM12| x a for geodesic scales.
+#include "harness/value_semantics.hpp"
 #include <GeographicLib/AzimuthalEquidistant.hpp>
 #include <GeographicLib/Gnomonic.hpp>
 #include <GeographicLib/CassiniSoldner.hpp>
@@ -39,7 +40,12 @@ static std::vector<EllCfg>& ells() {
     for (const S& e : s) {
       EllCfg c; c.name = e.n; c.a = e.a; c.f = e.f; c.exact = e.ex; c.b = e.a * (1 - e.f); c.qm = gh::quarter_meridian(e.a, e.f);
       c.tol = e.ex ? gh::doc_exact(c.b / c.a) * c.qm / 1e7 : gh::doc_series(e.f) * e.a / gh::WGS84_A; c.tolM = c.tol / c.a;
-      c.g.reset(new Geodesic(e.a, e.f, e.ex)); c.ae.reset(new AzimuthalEquidistant(*c.g)); c.gn.reset(new Gnomonic(*c.g));
+      // detached copies (harness/value_semantics.hpp); the projections are moreover constructed from a Geodesic that is then overwritten and destroyed
+      c.g.reset(vh::detached_new<Geodesic>([&] { return Geodesic(e.a, e.f, e.ex); }, [&] { return Geodesic(e.a * 1.25, 0.015, false); }));
+      { std::unique_ptr<Geodesic> tmp(new Geodesic(e.a, e.f, e.ex));
+        c.ae.reset(vh::detached_new<AzimuthalEquidistant>([&] { return AzimuthalEquidistant(*tmp); }, [&] { return AzimuthalEquidistant(Geodesic(e.a * 1.25, 0.015)); }));
+        c.gn.reset(vh::detached_new<Gnomonic>([&] { return Gnomonic(*tmp); }, [&] { return Gnomonic(Geodesic(e.a * 1.25, 0.015)); }));
+        *tmp = Geodesic(e.a * 0.8, 0.012); }
       c.Eq.reset(new ref::Ell<q128>(e.a, e.f)); c.El.reset(new ref::Ell<ld>((ld)e.a, (ld)e.f));
       v.push_back(std::move(c));
     }
